@@ -31,8 +31,11 @@ pub mod time {
         #[verifier::external_body]
         pub fn now() -> SystemTime { unimplemented!() }
         #[verifier::external_body]
-        pub fn duration_since(&self, earlier: SystemTime) -> Result<crate::time_shim::Duration, SystemTimeError> { unimplemented!() }
+        pub fn duration_since(&self, earlier: SystemTime) -> (r: Result<crate::time_shim::Duration, SystemTimeError>)
+            ensures r is Err ==> clock_before_epoch()
+        { unimplemented!() }
     }
+    pub uninterp spec fn clock_before_epoch() -> bool;
 }
 // ---- HashMap<String, Value> as JWT claims: an object with one member per key (order unspecified) ----
 pub uninterp spec fn hm_claims(m: vstd::map::Map<Seq<char>, Value>) -> Seq<(Seq<char>, J)>;
